@@ -120,6 +120,14 @@ func (m *mount) writeRole(t *testing.T, r *Role) {
 	if err != nil || (resp != nil && resp.IsError()) {
 		t.Fatalf("role %+v: %v %v", r, err, resp)
 	}
+	// every other role is additionally PATCHed with a field that changes nothing: a
+	// partial update must leave every constraint it does not name as it was
+	if m.nroles%2 == 0 {
+		presp, perr := m.do(logical.PatchOperation, "roles/"+r.Name, map[string]interface{}{"no_store": false})
+		if perr != nil || (presp != nil && presp.IsError()) {
+			t.Fatalf("role patch %s: %v %v", r.Name, perr, presp)
+		}
+	}
 }
 
 // run executes one request; accepted=false means it was refused.
